@@ -169,7 +169,7 @@ def campaign(c):
         check(c, (['import', 'a', ';'] * n) + ['let', 'x', '=', '1', ';'] * n, 'scale-stmts')
     # examples shipped with the repository that exercise the grammar
     for f in ('calls', 'refs', 'assignments'):
-        src = open('/repo/examples/%s.rsyn' % f, 'rb').read()
+        src = open(core.REPO + '/examples/%s.rsyn' % f, 'rb').read()
         req = 'parse ' + sh_hex(src)
         hi, mo = c.harness.ask(req), c.model.ask(req)
         if hi != mo: c.disagree('parse-example', dict(src=src.decode()), hi[:300], mo[:300])
